@@ -49,7 +49,7 @@ func (c *OCSPRevocationChecker) IsRevoked(clientCertificate *x509.Certificate, v
 		c.logger.Debug("certificate not found in cache", zap.String("certificate", clientCertificate.Subject.String()), zap.Error(err))
 	}
 
-	chains := core.NewCertificateChains(verifiedChains, c.ocspConfig.TrustedResponderCerts)
+	chains := core.NewCertificateChains(issuerChains(verifiedChains), c.ocspConfig.TrustedResponderCerts)
 	//TODO Support AIA via clientCertificate.IssuingCertificateURL
 	certCandidates, err := core.FindCertificateIssuerCandidates(issuer, &clientCertificate.Extensions, clientCertificate.PublicKeyAlgorithm, chains)
 	ocspServerList := c.filterHTTPOCSPServers(clientCertificate.OCSPServer)
@@ -97,6 +97,21 @@ func (c *OCSPRevocationChecker) IsRevoked(clientCertificate *x509.Certificate, v
 		}, nil
 	}
 
+}
+
+// issuerChains returns the verified chains without their end-entity certificates: the client certificate must never be
+// a candidate for its own issuer. A chain which only consists of the certificate itself (self signed and directly trusted)
+// is kept, such a certificate is its own issuer
+func issuerChains(verifiedChains [][]*x509.Certificate) [][]*x509.Certificate {
+	result := make([][]*x509.Certificate, 0, len(verifiedChains))
+	for _, verifiedChain := range verifiedChains {
+		if len(verifiedChain) > 1 {
+			result = append(result, verifiedChain[1:])
+		} else {
+			result = append(result, verifiedChain)
+		}
+	}
+	return result
 }
 
 func (c *OCSPRevocationChecker) calculateEvictionTime(response *ocsp.Response) time.Duration {
